@@ -26,6 +26,10 @@ None == <<>>
 Some(x) == <<x>>
 
 Min(a, b) == IF a <= b THEN a ELSE b
+\* Numbers of 2^31 and more are written as their 32-bit two's complement (negative): unsigned comparison, and the 31 bits of a
+\* stream id that reach the wire.
+UGt(a, b) == IF (a < 0) = (b < 0) THEN a > b ELSE a < 0
+WireSid(sid) == IF sid < 0 THEN (sid + 2147483647) + 1 ELSE sid
 Max0(a) == IF a > 0 THEN a ELSE 0
 
 \* ---------------------------------------------------------------- results / exceptions
@@ -253,7 +257,14 @@ Outbound(ep, sid) == sid % 2 = MyParity(ep)
 Hi(ep, sid) == IF Outbound(ep, sid) THEN ep.hiOut ELSE ep.hiIn
 Put(ep, sid, s) == [ep EXCEPT !.streams[sid] = s]
 PutR(ep, sid, r) == LET e == Put(ep, sid, r.st) IN IF r.mis THEN Mark(e, "misuse_closes_stream") ELSE e
-Emit(ep, frames) == [ep EXCEPT !.out = @ \o frames]
+\* Nothing stops a stream id of 2^31 or more given to a call: the frame serialiser keeps its low 31 bits (deviation
+\* stream_id_above_max).
+WireFrame(f) == LET g == IF "sid" \in DOMAIN f THEN [f EXCEPT !.sid = WireSid(@)] ELSE f
+                IN IF "pid" \in DOMAIN g THEN [g EXCEPT !.pid = WireSid(@)] ELSE g
+BigId(f) == ("sid" \in DOMAIN f /\ f.sid < 0) \/ ("pid" \in DOMAIN f /\ f.pid < 0)
+Emit(ep, frames) ==
+  LET e1 == [ep EXCEPT !.out = @ \o [i \in 1..Len(frames) |-> WireFrame(frames[i])]]
+  IN IF \E i \in 1..Len(frames) : BigId(frames[i]) THEN Mark(e1, "stream_id_above_max") ELSE e1
 
 \* H2ConnectionStateMachine.process_input
 ConnStep(ep, input) ==
@@ -285,10 +296,10 @@ ByReset(ep, sid) == ClosedBy(ep, sid) \in {"RRST", "SRST"}
 ByEnd(ep, sid) == ClosedBy(ep, sid) \in {"RES", "SES"}
 
 \* _get_stream_by_id: "ok" | NoSuchStreamError | StreamClosedError
-Lookup(ep, sid) == IF Has(ep, sid) THEN OK ELSE IF sid > Hi(ep, sid) THEN NSE ELSE SCE
+Lookup(ep, sid) == IF Has(ep, sid) THEN OK ELSE IF UGt(sid, Hi(ep, sid)) THEN NSE ELSE SCE
 \* _begin_new_stream (after the "not in streams" test)
 Begin(ep, sid, allowedParity) ==
-  IF sid <= Hi(ep, sid) THEN [ok |-> FALSE, ep |-> ep, x |-> Exc("StreamIDTooLowError", 1)]
+  IF ~UGt(sid, Hi(ep, sid)) THEN [ok |-> FALSE, ep |-> ep, x |-> Exc("StreamIDTooLowError", 1)]
   ELSE IF sid % 2 # allowedParity THEN [ok |-> FALSE, ep |-> ep, x |-> PE]
   ELSE LET e1 == [ep EXCEPT !.streams = (sid :> NewStream(ep)) @@ @, !.sord = Append(@, sid)]
        IN [ok |-> TRUE, x |-> OK,
@@ -515,7 +526,6 @@ RecvPriorityPart(ep, sid, pr) ==       \* _receive_priority_frame on a PRIORITY 
   ELSE IF pr[2] = sid THEN RR(c1.ep, PE, <<>>)
   ELSE RR(c1.ep, OK, <<EvPrio(sid, pr[1], pr[2], pr[3])>>)
 
-UGt(a, b) == IF (a < 0) = (b < 0) THEN a > b ELSE a < 0       \* unsigned comparison of 32-bit wire values
 \* _decode_headers (hpack.Decoder.decode): x = "ok" or the exception, size = the table size the decoder ends up with.
 \* In the decoder's order: every table-size update at the head of the block must be within the acknowledged
 \* HEADER_TABLE_SIZE; then the fields, whose running size is bounded by max_header_list_size; at the end the table
@@ -956,6 +966,10 @@ Receive(ep, fs) ==
   ELSE ReceiveLoop(ep, ep.pend \o Unglue(fs), <<>>, ep.mif)
 
 
+\* get_next_available_stream_id (-1: none left)
+NextStreamId(ep) == LET n == IF ep.hiOut = 0 THEN (IF ep.role = "c" THEN 1 ELSE 2) ELSE
+                                IF ep.hiOut < 0 \/ ep.hiOut > MAXW - 2 THEN -1 ELSE ep.hiOut + 2 IN n
+
 \* ---------------------------------------------------------------- h2c upgrade (initiate_upgrade_connection)
 \* c.src: "none" no HTTP2-Settings value, "lit" the value is the SETTINGS payload c.s (pairs).  A client returns the payload
 \* to put into its HTTP2-Settings header: its local settings in force, in dictionary order (result field v).
@@ -997,6 +1011,8 @@ Call0(ep, c) ==
     [] c.op = "oin"   -> OpenCount(ep, 1 - MyParity(ep))
     [] c.op = "oout"  -> OpenCount(ep, MyParity(ep))
     [] c.op = "upg"   -> Upgrade(ep, c)
+    [] c.op = "next"  -> LET n == NextStreamId(ep) IN
+                         CR(ep, IF n = -1 THEN [c |-> "NoAvailableStreamIDError", e |-> 1, v |-> -1] ELSE [c |-> "ok", e |-> -1, v |-> n])
 \* nothing stops a call from writing frames before the connection preamble has been written (the connection state machine
 \* starts in a state in which every send is allowed)
 Call(ep, c) ==
@@ -1008,8 +1024,6 @@ Call(ep, c) ==
 \* ---------------------------------------------------------------- queries (pure)
 LocalWindow(ep, sid) == LET lk == Lookup(ep, sid) IN IF lk.c = "ok" THEN Min(ep.ow, ep.streams[sid].ow) ELSE lk.c
 RemoteWindow(ep, sid) == LET lk == Lookup(ep, sid) IN IF lk.c = "ok" THEN Min(ep.iw.cur, ep.streams[sid].iw.cur) ELSE lk.c
-NextStreamId(ep) == LET n == IF ep.hiOut = 0 THEN (IF ep.role = "c" THEN 1 ELSE 2) ELSE
-                                IF ep.hiOut > MAXW - 2 THEN -1 ELSE ep.hiOut + 2 IN n
 Queries(ep, qsids) ==
   [lw |-> [i \in 1..Len(qsids) |-> LocalWindow(ep, qsids[i])],
    rw |-> [i \in 1..Len(qsids) |-> RemoteWindow(ep, qsids[i])],
